@@ -100,7 +100,8 @@ func TestWorker(t *testing.T) {
 	runOne := func(idx uint64, sub int, extra json.RawMessage) bool {
 		tapeIdx := idx
 		if sub >= 0 {
-			tapeIdx = idx*65536 + uint64(sub) + 1<<40
+			// all crash points of one base execution share the tape: same prefix until the fault manifests
+			tapeIdx = idx + 1<<40
 		}
 		tape := rt.NewTape(job.Seed, tapeIdx)
 		var trace func(string)
@@ -118,8 +119,11 @@ func TestWorker(t *testing.T) {
 		}
 		for _, v := range rec.Violations {
 			if v.Property == "HARNESS" {
+				if rec.Outcome != "infra" {
+					rec.Reason = ""
+				}
 				rec.Outcome = "infra"
-				rec.Reason = "harness-only " + v.Class + ": " + v.Signature + " :: " + v.Detail
+				rec.Reason += "harness-only " + v.Class + ": " + v.Signature + " :: " + v.Detail + " || "
 			}
 		}
 		own := -1
@@ -177,7 +181,7 @@ func TestWorker(t *testing.T) {
 		logf("BEGIN %d", idx)
 		goOn := true
 		if sr, ok := e.(SubRunner); ok {
-			if subs := sr.SubRuns(job.Batch, idx, job.Extra); subs != nil {
+			if subs := sr.SubRuns(t, job.Batch, func() *rt.Tape { return rt.NewTape(job.Seed, idx+1<<40) }, idx, job.Extra); subs != nil {
 				for si, sub := range subs {
 					if goOn = runOne(idx, si, sub); !goOn {
 						break
